@@ -207,6 +207,18 @@ def b_get(I, inst, args, kwargs):
         merged[_s(k)] = v
     for k, v in own.items.values():
         merged[_s(k)] = v
+    extra = set(kwargs) - {"raw", "vars", "fallback"}
+    if extra or len(args) > 2:
+        raise AnalysisError("configparser model: get() with %s" % (sorted(extra) or "more than two positional arguments"))
+    vars_ = kwargs.get("vars")
+    if vars_ is not None and not (isinstance(vars_, Const) and vars_.v is None):
+        # the library gives the caller's mapping the highest priority (over the section and the default section), its keys
+        # passed through optionxform
+        if not isinstance(vars_, DictV):
+            raise AnalysisError("configparser model: get(vars=%r)" % (vars_,))
+        for k, v in vars_.items.values():
+            merged[_xform(I, inst, _s(k))] = v
+            inst.attrs.setdefault("@vars", {})[_xform(I, inst, _s(k))] = v
     if key not in merged:
         fb = kwargs.get("fallback")
         if fb is None or (isinstance(fb, ExtV) and fb.name.endswith("_UNSET")):
